@@ -18,6 +18,19 @@ pub proof fn lemma_fold_push(m: Map<(int, int, int), RateEntry>, s: Seq<RateEntr
 {
     assert(s.push(x).drop_last() =~= s);
 }
+/// C08.div_safe: a cache built from positive rates holds only positive rates (parse_monthly_rates returns only such entries: unit rates)
+pub open spec fn entries_positive(s: Seq<RateEntry>) -> bool { forall|i: int| 0 <= i < s.len() ==> (#[trigger] s[i]).rate_per_gbp.v() > 0real }
+pub proof fn lemma_fold_positive(m: Map<(int, int, int), RateEntry>, s: Seq<RateEntry>)
+    requires rates_positive(m), entries_positive(s),
+    ensures rates_positive(fold_insert(m, s)),
+    decreases s.len(),
+{
+    if s.len() > 0 {
+        assert(entries_positive(s.drop_last())) by { assert forall|i: int| 0 <= i < s.drop_last().len() implies (#[trigger] s.drop_last()[i]).rate_per_gbp.v() > 0real by { assert(s.drop_last()[i] == s[i]); } }
+        lemma_fold_positive(m, s.drop_last());
+        assert(s.last() == s[s.len() - 1]);
+    }
+}
 /// C08: GBP unchanged; foreign: divide by the rate of (currency, year, month) of the transaction's own date, Err when absent
 pub open spec fn conv(a: CurrencyAmount, date: NaiveDate, rates: Option<Map<(int, int, int), RateEntry>>) -> Result<real, ()> {
     if a.currency.id() == gbp_id() { Ok(a.amount.v()) }
